@@ -5,7 +5,8 @@ META = {
     "bounds": {
         "markup": "markup trees of 6 concrete shapes (depth <= 3, <= 4 leaves), leaves of 0..2 symbolic characters, tags solver-chosen from {a, b, c, None}",
         "layout": "text of L <= 3 characters, each solver-chosen from {symbolic ASCII printable, space, newline, U+00E9 (2 bytes, 1 column), U+4E00 (3 bytes, 2 columns)}; "
-                  "1-3 attribute runs with symbolic lengths; width 1..3 (4 thorough) concretised; wrap and align concrete",
+                  "1-3 attribute runs with symbolic lengths; width 1..3 (4 thorough) concretised; wrap and align concrete; the rendered canvas is also "
+                  "clipped on the left by every amount (and on the right by one column) and compared column by column with the unclipped one",
         "maps": "AttrMap / fill_attr_apply chains of depth <= 3 over a leaf canvas with attributes from {None, a, b, c}; map entries solver-chosen",
         "sgr": "AttrSpec from every basic colour name / a few high and true colours x each style flag x bright_is_bold, at depths 1, 16, 88, 256, 2^24",
     },
@@ -132,6 +133,7 @@ def h_layout(I, wrap, align, L, maxw):
     blen = [1 if (isinstance(c, int) and c < 128) or I.is_sym(c) else len(chr(c).encode("utf-8")) for c in cps]
     rows = list(canv.content())
     I.check("rows", len(rows) == len(lay))
+    exp_rows = []
     for r, (line, row) in enumerate(zip(lay, rows)):
         got = []
         for at, cs, seg in row:
@@ -154,12 +156,45 @@ def h_layout(I, wrap, align, L, maxw):
         ok = len(got) >= len(exp)
         I.check("row_%d_long_enough" % r, ok)
         if not ok:
+            exp_rows.append((tl, exp))
             continue
         for k, e in enumerate(exp):
             if e in ("?", "pad"):
                 continue
             I.check("row_%d_byte_%d_attribute" % (r, k), got[k] == e)
         I.check("row_%d_fill_cells_carry_no_attribute" % r, all(g is None for g in got[len(exp):]))
+        exp_rows.append((tl, exp))
+    # clipping the rendered canvas (Overlay, Columns, scrolling do this) never shifts an attribute onto a neighbouring cell:
+    # per screen column, the clipped view shows the attribute the full canvas has in that column
+    if w >= 2 and rows and any((not I.is_sym(c)) and c >= 0x1100 for c in cps):
+        # (only rows containing a double-width character: clipping narrow text cuts between characters)
+        from urwid import str_util
+
+        # every left clip up to the right edge, and the right clip by one column
+        cl = int(I.int("clip_left", 0, w - 1))
+        cc = w - cl if cl else w - 1
+        widths = [1 if (I.is_sym(c) or c < 0x1100) else 2 for c in cps]
+        clipped = list(canv.content(cl, 0, cc, len(rows)))
+        for r, ((tl, _exp), crow) in enumerate(zip(exp_rows, clipped)):
+            full = []
+            for sg in tl:
+                if len(sg) == 3 and not isinstance(sg[2], bytes):
+                    for o in range(int(sg[1]), int(sg[2])):
+                        full += [per_char[o]] * widths[o]
+                elif len(sg) == 3:
+                    full += ["?"] * int(sg[0])
+                elif sg[1] is None:
+                    full += [None] * int(sg[0])
+                else:
+                    full += ["?"] * int(sg[0])
+            full += [None] * (w - len(full))
+            gotc = []
+            for at, _cs, seg in crow:
+                gotc += [at] * int(str_util.calc_width(seg, 0, len(seg)))
+            I.check("clipped_row_%d_width" % r, len(gotc) == cc)
+            for k, e in enumerate(full[cl: cl + cc]):
+                if e != "?" and k < len(gotc):
+                    I.check("clipped_row_%d_column_%d_attribute" % (r, k), gotc[k] == e)
 
 
 def h_maps(I, depth, widget):
